@@ -93,6 +93,18 @@ def bounded(ctx, b):
     sets.append(("p_style_without_writable_properties", CaptionSet(
         {"en": CaptionList([Caption(0, 10 ** 6, [T("x")], style={"class": "k"}), Caption(10 ** 6, 2 * 10 ** 6, [T("y")])])},
         styles={"p": {"bold": True, "underline": True}, "k": {"color": "red"}, "empty": {}})))
+    # a class that has no definition but is spelled like a region id: no style= may point at a region
+    from pycaption.geometry import Layout, Point, Size, UnitEnum
+    lay = Layout(origin=Point(Size(10, UnitEnum.PERCENT), Size(70, UnitEnum.PERCENT)))
+    sets.append(("undefined_class_named_like_a_region", CaptionSet({"en": CaptionList([
+        Caption(0, 10 ** 6, [T("x")], style={"class": "bottom"}),
+        Caption(10 ** 6, 2 * 10 ** 6, [CaptionNode.create_style(True, {"class": "r0"}, layout_info=lay), T("y", layout_info=lay),
+                                      CaptionNode.create_style(False, {"class": "r0"}, layout_info=lay)], layout_info=lay)])},
+        styles={"basic": {"color": "red"}})))
+    # identical time spans that are NOT adjacent stay separate paragraphs (only runs are merged)
+    sets.append(("equal_spans_not_adjacent", CaptionSet({"en": CaptionList([
+        Caption(10 ** 6, 3 * 10 ** 6, [T("a")]), Caption(3 * 10 ** 6, 4 * 10 ** 6, [T("b")]), Caption(10 ** 6, 3 * 10 ** 6, [T("c")]),
+        Caption(10 ** 6, 3 * 10 ** 6, [T("d")]), Caption(4 * 10 ** 6, 6 * 10 ** 6, [T("e")])])})))
     sets.append(("empty_last_language", CaptionSet({"en": CaptionList([Caption(0, 10 ** 6, [T("x")])]), "xx": CaptionList()})))
     for name, cs in sets:
         for W, opts in WRITER_OPTIONS:
